@@ -526,4 +526,95 @@ theorem los_no_slack_overflows (vm : VMConsts) (debug : Bool) (ka km kx size ali
   refine ⟨(size + 4095) / 4096, r, ?_, hsz, by omega⟩
   simp only [losAllocNoSlack, losPagesNoSlack, losResult, hr, hpg]
 
+/-- mmtk-core's default `VMBinding` constants: `MIN_ALIGNMENT = 4`, `MAX_ALIGNMENT = 8` -/
+def vmMmtkDefault : VMConsts := { minAlign := 4, maxAlign := 8 }
+
+/-- **`los_pages_without_slack_too_small`** — kernel-evaluated witnesses on the executable
+definitions that dropping the alignment slack is wrong, for two VMs: legal inputs for which
+`res + size > cell + pages * 4096`, although the real computation (`losAllocFull`, one page more)
+keeps the object inside its pages. -/
+theorem los_pages_without_slack_too_small :
+    -- (a) the harness VM (MIN_ALIGNMENT 8, MAX_ALIGNMENT 64): size 8192, align 16, offset 8
+    (LosLegal vmDefault 4 3 6 8192 16 8 0x30000000000 ∧
+      losAllocNoSlack vmDefault true 8192 16 8 0x30000000000 = some (2, 0x30000000008) ∧
+      0x30000000008 + 8192 > 0x30000000000 + 2 * 4096 ∧
+      losAllocFull vmDefault true 8192 16 8 0x30000000000 = some (3, 0x30000000008) ∧
+      0x30000000008 + 8192 ≤ 0x30000000000 + 3 * 4096) ∧
+    -- (b) the default VMBinding constants (MIN_ALIGNMENT 4, MAX_ALIGNMENT 8): size 8192, align 8, offset 4
+    (LosLegal vmMmtkDefault 3 2 3 8192 8 4 0x30000000000 ∧
+      losAllocNoSlack vmMmtkDefault true 8192 8 4 0x30000000000 = some (2, 0x30000000004) ∧
+      0x30000000004 + 8192 > 0x30000000000 + 2 * 4096 ∧
+      losAllocFull vmMmtkDefault true 8192 8 4 0x30000000000 = some (3, 0x30000000004) ∧
+      0x30000000004 + 8192 ≤ 0x30000000000 + 3 * 4096) ∧
+    -- (c) release profile, size just below a page multiple
+    (losAllocNoSlack vmDefault false 12280 64 8 0x30000000000 = some (3, 0x30000000038) ∧
+      0x30000000038 + 12280 > 0x30000000000 + 3 * 4096) := by
+  refine ⟨⟨⟨⟨rfl, rfl, rfl, by omega, ⟨1, rfl⟩, by omega, Nat.le_refl _⟩,
+      Nat.dvd_of_mod_eq_zero (by decide), Nat.dvd_of_mod_eq_zero (by decide), by decide, by decide⟩,
+      by decide, by decide, by decide, by decide⟩,
+    ⟨⟨⟨rfl, rfl, rfl, by omega, ⟨1, rfl⟩, by omega, Nat.le_refl _⟩,
+      Nat.dvd_of_mod_eq_zero (by decide), Nat.dvd_of_mod_eq_zero (by decide), by decide, by decide⟩,
+      by decide, by decide, by decide, by decide⟩,
+    by decide, by decide⟩
+
+/-! ## (3) free-list (mark-sweep) allocator: `FreeListAllocator::alloc` -/
+
+section FreeList
+open Mmtk.MsBins Mmtk.Gen.Bins
+
+theorem msVm_legal (ka align offset : Nat) (halign : align = 2^ka) (hka : 3 ≤ ka ∧ ka ≤ 6)
+    (hoff : 8 ∣ offset) (hoffw : offset < 2^63) :
+    LegalAlign MsBins.vm ka 3 6 align offset MsBins.vm.minAlign :=
+  ⟨by decide, by decide, halign, by omega, hoff, hoffw, Nat.le_refl _⟩
+
+/-- **C03, free-list allocator**: for every request `mi_bin` accepts (C35 `bin_fits_partial`) the
+selected bin `b` is a real bin and, for EVERY cell `start + k * binSize b` of a block of that size
+class, `align_allocation` inside the cell never panics and returns an address `res` with
+`(res + offset) % align = 0`, `cell ≤ res` and `res + size ≤ cell + binSize b` — the `debug_assert!`
+in `FreeListAllocator::alloc` — and inside the block. -/
+theorem freelist_alloc_within_cell (debug : Bool) (ka size align offset start : Nat)
+    (halign : align = 2^ka) (hka : 3 ≤ ka ∧ ka ≤ 6) (hoff : 8 ∣ offset) (hoffw : offset < 2^63)
+    (hs : alignedSize size align ≤ maxBinSize) (hd : debug = true → size % minAlign = 0)
+    (hstart : 8 ∣ start) (hend : start + 65536 + 64 < 2^63) :
+    ∃ b, miBin debug size align = some b ∧ Fits b (alignedSize size align) ∧
+      ∀ k, k < blockBytes / binSize b →
+        ∃ res, alignAllocation MsBins.vm debug (start + k * binSize b) align offset MsBins.vm.minAlign
+            = some res ∧
+          (res + offset) % align = 0 ∧ start + k * binSize b ≤ res ∧
+          res + size ≤ start + k * binSize b + binSize b ∧
+          start ≤ res ∧ res + size ≤ start + blockBytes ∧
+          res = start + k * binSize b + padSpec (start + k * binSize b) align offset := by
+  have h3 : (2:Nat)^3 = 8 := by decide
+  have h6 : (2:Nat)^6 = 64 := by decide
+  have hal : 8 ≤ align ∧ align ≤ 64 := by
+    rw [halign, ← h3, ← h6]
+    exact ⟨Nat.pow_le_pow_right (by omega) hka.1, Nat.pow_le_pow_right (by omega) hka.2⟩
+  have ha : minAlign ≤ align ∧ align ≤ maxAlign := by rw [minAlign_eq, maxAlign_eq]; exact hal
+  obtain ⟨b, hb, hfit⟩ := bin_fits_partial debug size align ha hs hd
+  refine ⟨b, hb, hfit, ?_⟩
+  obtain ⟨hb1, hb2, hsz, _⟩ := hfit
+  obtain ⟨hcpos, hcle, hc8⟩ := bin_cell_size_legal b hb2
+  rw [intptrSize_eq] at hc8
+  have hB : blockBytes = 65536 := rfl
+  rw [hB] at hcle ⊢
+  intro k hk
+  have hkin : k * binSize b + binSize b ≤ 65536 := by
+    have h1 : (k + 1) * binSize b ≤ (65536 / binSize b) * binSize b := Nat.mul_le_mul_right _ hk
+    have h2 := Nat.div_mul_le_self 65536 (binSize b)
+    rw [Nat.add_mul, Nat.one_mul] at h1
+    omega
+  have L := msVm_legal ka align offset halign hka hoff hoffw
+  have hvm : MsBins.vm.minAlign = 8 := rfl
+  have hcell8 : MsBins.vm.minAlign ∣ start + k * binSize b := by
+    rw [hvm]
+    exact Nat.dvd_add hstart (Nat.dvd_mul_left_of_dvd (Nat.dvd_of_mod_eq_zero hc8) k)
+  obtain ⟨r, hr, hge, hpad, hmod, _, hreq⟩ :=
+    alignAllocation_good MsBins.vm debug ka 3 6 (start + k * binSize b) align offset L (by omega) hcell8
+  rw [hvm] at hpad
+  refine ⟨r, hr, hmod, hge, ?_, by omega, ?_, hreq⟩
+  · rcases alignedSize_cases size align with ⟨_, e⟩ | ⟨_, e⟩ <;> omega
+  · rcases alignedSize_cases size align with ⟨_, e⟩ | ⟨_, e⟩ <;> omega
+
+end FreeList
+
 end Mmtk.AllocArith
